@@ -443,6 +443,17 @@ def well_formed(x, tname):
         return "KEY with NOKEY flags and key data (RFC 2535 3.1.2)"
     if tname == "WKS" and len(x.bitmap) > 8192:
         return "WKS bitmap longer than 65536 bits (ports are 16 bit)"
+    if tname in ("SVCB", "HTTPS"):
+        # RFC 9460 7.1.1 / 7.3 / 8: alpn, ipv4hint, ipv6hint and mandatory carry a non-empty list; from_wire
+        # accepts the empty value (alpn becomes a key without value, the hints / mandatory an empty tuple)
+        import dns.rdtypes.svcbbase as S
+        for k, v in x.params.items():
+            if int(k) == 1 and v is None:
+                return "SVCB alpn with an empty value (RFC 9460 7.1.1)"
+            if isinstance(v, (S.IPv4HintParam, S.IPv6HintParam)) and len(v.addresses) == 0:
+                return "SVCB address hint with an empty list (RFC 9460 7.3)"
+            if isinstance(v, S.MandatoryParam) and len(v.keys) == 0:
+                return "SVCB mandatory with an empty list (RFC 9460 8)"
     return None
 
 
